@@ -198,7 +198,10 @@ impl Scenario for Timed {
                     return Some(("live-connection-closed", format!("every completed interval carried a non-keep-alive message ({:?}) but the connection was closed at t={} s ({:?})", mon.live_in_interval, now / 1000, reason)));
                 }
                 if let Some(r) = &reason {
-                    if !r.contains("Keep alive timeout") {
+                    // (the wording of the reason is the client's business: anything that speaks of
+                    // keep-alives, silence, inactivity or a timeout is taken as "closed for inactivity")
+                    let rl = r.to_lowercase();
+                    if !(rl.contains("alive") || rl.contains("timeout") || rl.contains("timed out") || rl.contains("inactiv") || rl.contains("silen") || rl.contains("idle")) {
                         return Some(("closed-for-another-reason", format!("{}", r)));
                     }
                 }
